@@ -170,7 +170,7 @@ def run(ctx):
                   rule="a case is one walk (start colour x sequence of target spaces) or one pair of routes; distinct by nodes and "
                        "exact start colour; every case performs at least one conversion (non-trivial)",
                   explanation="MC_ConvGraph: every ordered pair of the 18 colour types of the XYZ group has a terminating route of "
-                              "hand-written edges under the transcribed derive algorithm (324 pairs = states). All ordered pairs of 19 "
+                              "hand-written edges under the transcribed derive algorithm (324 pairs = states). All ordered pairs of 21 "
                               "typed nodes are then exercised as round trips, triangles through five hubs and alpha-carrying walks; TLC "
                               "judges every event with ColourEq.tla.",
                   trusted=["the code's own direct conversion to Xyz as the abstraction function (a defect common to all routes is C02's)",
